@@ -64,5 +64,17 @@ template <typename Word> constexpr auto any_word_set_typed(Word const* f, Word c
     return reduce(f, l, Word(0), bit_or()) != Word(0);
 }
 
+// TYPEDFUN: a functor fixed to T applied to a value declared with U
+template <typename T> struct equal_to { constexpr auto operator()(T const& a, T const& b) const -> bool { return a == b; } };
+template <typename T> struct box { T v; constexpr auto operator*() const -> T const& { return v; } };
+template <typename T, typename U> constexpr auto same_value(box<T> const& l, box<U> const& r) -> bool
+{
+    return equal_to<T>{}(*l, *r);
+}
+template <typename T, typename U> constexpr auto same_value_plain(box<T> const& l, box<U> const& r) -> bool
+{
+    return *l == *r;
+}
+
 } // namespace fixture
 #endif
